@@ -20,7 +20,7 @@ MASK = "data_preparation.label_switching_cost_template"
 def r1(ctx):
     ana = ctx.ana
     fi = ana.func(STACKN)
-    b = ana.builder(fi, no_inline=lambda f: True)
+    b = ana.builder(fi, no_inline=ana.known)
     rt = b.return_term()
     series, W = Sym(fi.params[0]), Sym(fi.params[1])
     ok = False
@@ -59,7 +59,7 @@ def r2(ctx):
         raise AnalysisError("price offset of the kernel cannot be read (C01.R4 not uniform)")
     fi = ana.func(MASK)
     L = Sym(fi.params[0])
-    b = ana.builder(fi, no_inline=lambda f: True)
+    b = ana.builder(fi, no_inline=ana.known)
     rt = b.return_term()
     if not isinstance(rt, Sym):
         raise AnalysisError(f"mask helper returns {rt}: only the allocate-then-overwrite idiom is modelled")
@@ -162,9 +162,8 @@ def r3(ctx):
     arg = ba.get("user_args")
     feeding = None
     if isinstance(arg, ast.Name):
-        d = fl.sole_def(arg.id, fl.at(arg))
-        if d is not None and isinstance(d.ast, ast.Assign):
-            feeding = next((c for c in ctors if c.node is d.ast.value), None)
+        v_ = fl.resolve_copies(arg)
+        feeding = next((c for c in ctors if c.node is v_), None)
     elif isinstance(arg, ast.Call):
         feeding = next((c for c in ctors if c.node is arg), None)
     if feeding is None:
@@ -190,7 +189,7 @@ def r3(ctx):
     if masked:
         ctx.check("label_switching_cost" in dep.params, fe, "the masked price still depends on the user's switching cost", line=v.lineno,
                   role="masked-price:param", expected="label_switching_cost * mask", found=unparse(v))
-        b = ana.builder(fe, no_inline=lambda f: True)
+        b = ana.builder(fe, no_inline=ana.known)
         t = b.term(v)
         sizes_ok = any(isinstance(x, App) and x.fn == mask_q for x in tm.subterms(t))
         ctx.check(sizes_ok, fe, "the product is taken with the mask helper's result", role="masked-price:product", found=str(t)[:120])
@@ -210,7 +209,7 @@ def r4(ctx):
                   expected=unparse(da) if da is not None else "required", found=unparse(db) if db is not None else "required")
     # the mask is computed from the stacked lengths T_k - W + 1 (agreement with the stacker is C04.R2)
     fe = b_
-    bb = ana.builder(fe, no_inline=lambda f: True)
+    bb = ana.builder(fe, no_inline=ana.known)
     cs = calls_to(ana, fe, ana.func(MASK).qualname)
     for c in cs:
         t = bb.term(c.node.args[0]) if c.node.args else None
